@@ -51,4 +51,121 @@ theorem base_decode_encode (b : Base) (hts : -(2 ^ 63 : Int) ≤ b.timestamp ∧
   simp only [g1, g2, g3, unzigzag_zigzag]
 
 
+/-! ## value-level converses for results, batches and blocks -/
+
+theorem resultMsg_valid (r : Result) (he : r.error.length < 2 ^ 64) (ho : ∀ e ∈ r.outputs, e.length < 2 ^ 64)
+    (hu : r.units.length = 40) (hf : r.fee.length = 8) : validMsg resultSpec 0 r.toMsg = true := by
+  by_cases h1 : r.success = true <;> by_cases h2 : r.error = [] <;> by_cases h3 : r.outputs = [] <;>
+    by_cases h4 : allZero r.units = true <;> by_cases h5 : allZero r.fee = true <;>
+    simp_all [Result.toMsg, optNum, optBytes, optList, optFixed, validMsg, resultSpec, okVal]
+
+theorem resultMsg_get (r : Result) (hu : r.units.length = 40) (hf : r.fee.length = 8) :
+    (getNum r.toMsg 1 == 1) = r.success ∧ getBytes r.toMsg 2 = r.error ∧ getList r.toMsg 3 = r.outputs ∧
+    getFixed r.toMsg 4 40 = r.units ∧ getFixed r.toMsg 5 8 = r.fee := by
+  have z1 : allZero r.units = true → zeros 40 = r.units := by
+    intro h; have := eq_zeros_of_allZero _ h; rw [hu] at this; exact this.symm
+  have z2 : allZero r.fee = true → zeros 8 = r.fee := by
+    intro h; have := eq_zeros_of_allZero _ h; rw [hf] at this; exact this.symm
+  by_cases h1 : r.success = true <;> by_cases h2 : r.error = [] <;> by_cases h3 : r.outputs = [] <;>
+    by_cases h4 : allZero r.units = true <;> by_cases h5 : allZero r.fee = true <;>
+    simp [Result.toMsg, optNum, optBytes, optList, optFixed, getNum, getBytes, getList, getFixed,
+      List.lookup, h1, h2, h3, h4, h5, z1, z2]
+
+theorem result_dec (r : Result) (he : r.error.length < 2 ^ 64)
+    (ho : ∀ e ∈ r.outputs, e.length < 2 ^ 64) (hu : r.units.length = 40) (hf : r.fee.length = 8) :
+    decodeResult (encodeResult r) = some r := by
+  unfold decodeResult encodeResult
+  rw [decode_complete resultSpec_ok (resultMsg_valid r he ho hu hf)]
+  obtain ⟨g1, g2, g3, g4, g5⟩ := resultMsg_get r hu hf
+  simp only [g1, g2, g3, g4, g5]
+
+
+theorem mapM?_map_mem {α β} {f : α → Option β} {g : β → α} : ∀ (r : List β),
+    (∀ y ∈ r, f (g y) = some y) → mapM? f (r.map g) = some r := by
+  intro r
+  induction r with
+  | nil => intro _; rfl
+  | cons b bs ih =>
+    intro h
+    simp [mapM?, h b (by simp), ih (fun y hy => h y (List.mem_cons_of_mem _ hy))]
+
+/-- a transaction value `decode_encode` applies to, whose encoding is a non-nil block entry -/
+structure TxOK {A Au : Type} (pa : Parser A) (pu : Parser Au) (t : Tx A Au) : Prop where
+  ts : -(2 ^ 63 : Int) ≤ t.base.timestamp ∧ t.base.timestamp < 2 ^ 63
+  chainID : t.base.chainID.length = 32
+  maxFee : t.base.maxFee.length = 8
+  actions : ∀ a ∈ t.actions, (pa.bytes a).length < 2 ^ 64
+  auth : (pu.bytes t.auth).length < 2 ^ 64
+  nonempty : encodeTx pa pu t ≠ []
+  size : (encodeTx pa pu t).length < 2 ^ 64
+
+theorem listMsg_valid (spec : Spec) {f : Nat} (hk : spec f = some .repBytes) (l : List Bytes)
+    (hl : ∀ e ∈ l, e.length < 2 ^ 64) : validMsg spec 0 (optList f l) = true := by
+  by_cases h : l = [] <;> simp_all [optList, validMsg, okVal]
+
+theorem listMsg_get (f : Nat) (l : List Bytes) : getList (optList f l) f = l := by
+  by_cases h : l = [] <;> simp [optList, getList, List.lookup, h]
+
+theorem blockMsg_valid (p t h c : Bytes) (txs : List Bytes) (root : Bytes) (hp : p.length = 32) (ht : t.length = 8)
+    (hh : h.length = 8) (hc : c.length < 2 ^ 64) (htx : ∀ e ∈ txs, e.length < 2 ^ 64) (hr : root.length = 32) :
+    validMsg blockSpec 0 (blockMsg p t h c txs root) = true := by
+  by_cases h1 : allZero p = true <;> by_cases h2 : allZero t = true <;> by_cases h3 : allZero h = true <;>
+    by_cases h4 : c = [] <;> by_cases h5 : txs = [] <;> by_cases h6 : allZero root = true <;>
+    simp_all [blockMsg, optBytes, optList, optFixed, validMsg, blockSpec, okVal]
+
+theorem blockMsg_get (p t h c : Bytes) (txs : List Bytes) (root : Bytes) (hp : p.length = 32) (ht : t.length = 8)
+    (hh : h.length = 8) (hr : root.length = 32) :
+    getFixed (blockMsg p t h c txs root) 1 32 = p ∧ getFixed (blockMsg p t h c txs root) 2 8 = t ∧
+    getFixed (blockMsg p t h c txs root) 3 8 = h ∧ getBytes (blockMsg p t h c txs root) 4 = c ∧
+    getList (blockMsg p t h c txs root) 5 = txs ∧ getFixed (blockMsg p t h c txs root) 6 32 = root := by
+  have z1 : allZero p = true → p = zeros 32 := by
+    intro h; have := eq_zeros_of_allZero _ h; rw [hp] at this; exact this
+  have z2 : allZero t = true → t = zeros 8 := by
+    intro h; have := eq_zeros_of_allZero _ h; rw [ht] at this; exact this
+  have z3 : allZero h = true → h = zeros 8 := by
+    intro h'; have := eq_zeros_of_allZero _ h'; rw [hh] at this; exact this
+  have z6 : allZero root = true → root = zeros 32 := by
+    intro h; have := eq_zeros_of_allZero _ h; rw [hr] at this; exact this
+  by_cases h1 : allZero p = true <;> by_cases h2 : allZero t = true <;> by_cases h3 : allZero h = true <;>
+    by_cases h4 : c = [] <;> by_cases h5 : txs = [] <;> by_cases h6 : allZero root = true <;>
+    simp_all [blockMsg, optBytes, optList, optFixed, getBytes, getList, getFixed, List.lookup]
+
+theorem ctx_decode_encode {h : Nat} (hh : h < 2 ^ 64) :
+    decode ctxSpec (encodeCtx h) = some (optNum 1 h) ∧ getNum (optNum 1 h) 1 = h ∧
+    (encodeCtx h).length < 2 ^ 64 := by
+  have hv : validMsg ctxSpec 0 (optNum 1 h) = true := by
+    by_cases h0 : h = 0 <;> simp_all [optNum, validMsg, ctxSpec, okVal] <;> omega
+  refine ⟨decode_complete ctxSpec_ok hv, ?_, ?_⟩
+  · by_cases h0 : h = 0 <;> simp [optNum, getNum, List.lookup, h0]
+  · have := HyperModel.Estimate.length_enc_optNum_uvar ctxSpec (f := 1) rfl h
+    have := HyperModel.Estimate.sizeUint_le_ten hh
+    unfold encodeCtx; omega
+
+
+theorem execResultsMsg_valid (l : List Bytes) (p c : Bytes) (hl : ∀ e ∈ l, e.length < 2 ^ 64)
+    (hp : p.length = 40) (hc : c.length = 40) :
+    validMsg execResultsSpec 0 (optList 1 l ++ optFixed 2 p ++ optFixed 3 c) = true := by
+  by_cases h1 : l = [] <;> by_cases h2 : allZero p = true <;> by_cases h3 : allZero c = true <;>
+    simp_all [optList, optFixed, validMsg, execResultsSpec, okVal]
+
+theorem execResultsMsg_get (l : List Bytes) (p c : Bytes) (hp : p.length = 40) (hc : c.length = 40) :
+    getList (optList 1 l ++ optFixed 2 p ++ optFixed 3 c) 1 = l ∧
+    getFixed (optList 1 l ++ optFixed 2 p ++ optFixed 3 c) 2 40 = p ∧
+    getFixed (optList 1 l ++ optFixed 2 p ++ optFixed 3 c) 3 40 = c := by
+  have z1 : allZero p = true → p = zeros 40 := by
+    intro h; have := eq_zeros_of_allZero _ h; rw [hp] at this; exact this
+  have z2 : allZero c = true → c = zeros 40 := by
+    intro h; have := eq_zeros_of_allZero _ h; rw [hc] at this; exact this
+  by_cases h1 : l = [] <;> by_cases h2 : allZero p = true <;> by_cases h3 : allZero c = true <;>
+    simp_all [optList, optFixed, getList, getFixed, List.lookup]
+
+/-- a `Result` value with well-formed fixed-size fields -/
+structure ResultOK (r : Result) : Prop where
+  error : r.error.length < 2 ^ 64
+  outputs : ∀ e ∈ r.outputs, e.length < 2 ^ 64
+  units : r.units.length = 40
+  fee : r.fee.length = 8
+  size : (encodeResult r).length < 2 ^ 64
+
+
 end HyperModel.Canoto
